@@ -318,6 +318,68 @@ def refusal_kills(P, R):
     R.floor('C02.MPT.3', 1)
 
 
+FINAL_ANSWERS = ('OK', 'OK ', 'OK acct', 'AGAIN', 'AGAIN ', 'AGAIN try later', 'MORE', 'MORE ', 'MORE your code')
+
+
+def answers_settle(P, R, rule='C03.MPT.4'):
+    """Every documented final answer ends the wait for it: along every path of a reply handler (one that gives awaited
+    bits back at all) that looked at the bytes of the reply text and returns with the bit still set and the client still
+    alive, what the path learned about the text rules out every form of OK, AGAIN and MORE - with a text after the
+    keyword, with only the blank, and bare (the text may be empty, as for NO: the header of iauth_xquery.c).  A form
+    that falls through to the "unexpected reply" return leaves the soft hold in place: with no timeout configured the
+    client never gets a verdict."""
+    V = core.verdict_fns(P)
+    from .c05 import reply_closure
+    n = 0
+    for f in reply_closure(P).values():
+        textp = [p['name'] for p in f.param_info if p['t'].startswith('const char')]
+        rel_sites = {t.key for t in f.stores() if t.ev['k'] == 'store' and is_field(t.ev['lhs'], holds.MASK) and t.ev.get('op') == '&='}
+        if not textp or not rel_sites:
+            continue
+
+        def on_edge(st, e):
+            r = rules.edge_rel(e)
+            if not r:
+                return st
+            ft = _text_fact(r, textp)
+            if ft is None:
+                return st
+            return st | frozenset([ft])
+
+        def on_event(st, t):
+            if t.key in rel_sites or (t.ev['k'] == 'call' and any(g.key in V for g in P.callees(t, True))):
+                return st | frozenset([('', 'settled')])
+            return st
+        before, _, sin, bout = f.forward(frozenset(), on_event, on_edge)
+        ends = []
+        for t in f.sites():
+            if t.ev['k'] == 'ret':
+                ends += [(t, st) for st in before.get(t.key, set())]
+        for bid in f.reachable_blocks():
+            if not f.out[bid] and not any(t.ev['k'] == 'ret' for t in f.block_sites(bid)):
+                ends += [(f, st) for st in bout.get(bid, set())]
+        looked = False
+        for where, st in ends:
+            facts = [x for x in st if x[1] != 'settled']
+            if not facts:
+                continue
+            looked = True
+            if ('', 'settled') in st:
+                continue
+            for v in {x[0] for x in facts}:
+                for cand in FINAL_ANSWERS:
+                    if all(_fact_holds(x, cand) for x in facts if x[0] == v):
+                        n += 1
+                        R.ob(rule, False, where, 'a final answer ends the wait on every path: the reply %r gets past every test on this path (%s) to a return with the awaited bit still set' % (
+                            cand, '; '.join(sorted('%s[%s] %s %r' % (x[0], x[2], x[3], chr(x[4])) if x[1] == 'byte' else 'cmp(%s,%r,%s) %s 0' % (x[0], x[2], x[3], x[4]) for x in facts))[:200]),
+                            key='answer-settles:%s' % cand.split(' ')[0] + ('' if ' ' in cand else ':bare'))
+                        break
+        if looked:
+            n += 1
+            R.ob(rule, True, f, 'paths of %s that inspect the reply text were followed to their returns (%d forms of the final answers)' % (f.name, len(FINAL_ANSWERS)), key='answer-settles:walked:%s' % f.name, nontrivial=False)
+    R.floor(rule, 1)
+
+
 def release_recognised(P, R, cl, rule='C02.GRD.6'):
     """The awaiting bit of a service is given back only for a reply the handler understood: on every path to the
     release some test of the reply (its absence, a keyword, a leading character) was taken in the affirmative.  A path
